@@ -318,9 +318,13 @@ func (v *Vue) resolveArgument(ctx VueContext, arg string) any {
 		return f
 	}
 
-	// Try to parse as bool
-	if b, err := strconv.ParseBool(arg); err == nil {
-		return b
+	// The bool literals. strconv.ParseBool would also take t, f, T, F, 1 and 0,
+	// which are variable names and numbers
+	switch arg {
+	case "true":
+		return true
+	case "false":
+		return false
 	}
 
 	// Try to resolve as variable
